@@ -31,6 +31,7 @@ class Tables:
                     continue                         # only an aid of transpose_key: what that function returns is evaluated anyway (VS-KEY)
                 raise AnalysisError(f"MusicMapping.{name} not found")
             self.nodes[name] = mm.class_attrs[name]
+        self.mm_attrs = dict(mm.class_attrs)
         if "circle_of_fifths_order" not in cof.class_attrs:
             raise AnalysisError("CircleOfFifths.circle_of_fifths_order not found")
         self.nodes["circle_of_fifths_order"] = cof.class_attrs["circle_of_fifths_order"]
@@ -666,6 +667,11 @@ class IntEval:
         ch0 = attr_chain(e) if isinstance(e, ast.Attribute) else None
         if ch0 and len(ch0) == 2 and ch0[0] == "MusicMapping" and ch0[1] in self.t.nodes:
             return self.t.table(ch0[1])
+        if ch0 and len(ch0) == 2 and ch0[0] == "MusicMapping" and ch0[1] in getattr(self.t, "mm_attrs", {}):
+            cache = self.t.__dict__.setdefault("_extra_tables", {})
+            if ch0[1] not in cache:
+                cache[ch0[1]] = self.t.ev(self.t.mm_attrs[ch0[1]])          # another class-level table (evaluated like the named ones)
+            return cache[ch0[1]]
         if ch0 and len(ch0) == 2 and ch0[0] in self.p.enums:
             return (ch0[0], ch0[1])
         if isinstance(e, ast.Subscript) and attr_chain(e.value) and attr_chain(e.value)[0] == "MusicMapping":
